@@ -24,14 +24,48 @@ Theorem C03_displayp3 : SpaceOK displayp3_data pub_p3.
 Proof. exact (space_ok_sound _ _ displayp3_ok). Qed.
 Print Assumptions C03_displayp3.
 
-(* float32 closeness of one row of Color.ToXYZ / ColorFromXYZ (partial: the 2e-6 round trip over all
-   float32 triples composes two such applications with the certified coefficients and is judged by the
-   oracle): for EVERY finite coefficients and components whose products stay below 2^K the computed row
+(* The composed float32 round trips, for EVERY finite float32 triple (Mat/RoundTrip.v): with A, B the two
+   coefficient matrices as the code holds them (probed, bit patterns), B(A v) evaluated as the code
+   evaluates it (three float32 dot products, twice; Mat3F.dot3_32 is compared bit for bit with
+   Color.ToXYZ / ColorFromXYZ on every run) is finite and within 2e-6 * r of v whenever every
+   component of v is at most r in magnitude, 1 <= r <= 2^100: r = 1 is the in-range clause (2e-6),
+   r > 1 the "proportional error without clamping" clause.  The bound is computed over Q from the 18
+   coefficients alone: |BA - I| row sums + the rounding of both applications (Flocq, Dot3.v). *)
+From PrismV Require Mat.RoundTrip.
+Section RoundTrips.
+Import PrismV.Mat.RoundTrip.
+Theorem C03_srgb_rgb_xyz_rgb_every_float32 : RoundTripOK (sd_to srgb_data) (sd_from srgb_data) (2 # 1000000)%Q.
+Proof. exact (rt_check_cols_sound _ _ _ srgb_rt). Qed.
+Theorem C03_srgb_xyz_rgb_xyz_every_float32 : RoundTripOK (sd_from srgb_data) (sd_to srgb_data) (2 # 1000000)%Q.
+Proof. exact (rt_check_cols_sound _ _ _ srgb_rt_back). Qed.
+Theorem C03_adobergb_rgb_xyz_rgb_every_float32 : RoundTripOK (sd_to adobergb_data) (sd_from adobergb_data) (2 # 1000000)%Q.
+Proof. exact (rt_check_cols_sound _ _ _ adobergb_rt). Qed.
+Theorem C03_adobergb_xyz_rgb_xyz_every_float32 : RoundTripOK (sd_from adobergb_data) (sd_to adobergb_data) (2 # 1000000)%Q.
+Proof. exact (rt_check_cols_sound _ _ _ adobergb_rt_back). Qed.
+Theorem C03_prophotorgb_rgb_xyz_rgb_every_float32 : RoundTripOK (sd_to prophotorgb_data) (sd_from prophotorgb_data) (2 # 1000000)%Q.
+Proof. exact (rt_check_cols_sound _ _ _ prophotorgb_rt). Qed.
+Theorem C03_prophotorgb_xyz_rgb_xyz_every_float32 : RoundTripOK (sd_from prophotorgb_data) (sd_to prophotorgb_data) (2 # 1000000)%Q.
+Proof. exact (rt_check_cols_sound _ _ _ prophotorgb_rt_back). Qed.
+Theorem C03_displayp3_rgb_xyz_rgb_every_float32 : RoundTripOK (sd_to displayp3_data) (sd_from displayp3_data) (2 # 1000000)%Q.
+Proof. exact (rt_check_cols_sound _ _ _ displayp3_rt). Qed.
+Theorem C03_displayp3_xyz_rgb_xyz_every_float32 : RoundTripOK (sd_from displayp3_data) (sd_to displayp3_data) (2 # 1000000)%Q.
+Proof. exact (rt_check_cols_sound _ _ _ displayp3_rt_back). Qed.
+End RoundTrips.
+Print Assumptions C03_srgb_rgb_xyz_rgb_every_float32.
+Print Assumptions C03_srgb_xyz_rgb_xyz_every_float32.
+Print Assumptions C03_adobergb_rgb_xyz_rgb_every_float32.
+Print Assumptions C03_adobergb_xyz_rgb_xyz_every_float32.
+Print Assumptions C03_prophotorgb_rgb_xyz_rgb_every_float32.
+Print Assumptions C03_prophotorgb_xyz_rgb_xyz_every_float32.
+Print Assumptions C03_displayp3_rgb_xyz_rgb_every_float32.
+Print Assumptions C03_displayp3_xyz_rgb_xyz_every_float32.
+
+(* float32 closeness of one row of Color.ToXYZ / ColorFromXYZ (the lemma the round trips above compose): for EVERY finite coefficients and components whose products stay below 2^K the computed row
    is finite and within ((1+u)^3-1)(|P1|+|P2|) + ((1+u)^2-1)|P3| + 13 eta of the exact sum, u = 2^-24 *)
 Section RowCloseness.
 Import Coq.Reals.Reals Flocq.Core.Core Flocq.IEEE754.BinarySingleNaN PrismV.Num.F64 PrismV.Mat.Mat3F PrismV.Mat.Dot3.
 Local Open Scope R_scope.
-Theorem C03_row_float32_close_partial : forall (K : Z) (a b c x y z : f32),
+Theorem C03_row_float32_close : forall (K : Z) (a b c x y z : f32),
   (-149 <= K)%Z /\ (K + 2 < 128)%Z ->
   is_finite a = true -> is_finite b = true -> is_finite c = true ->
   is_finite x = true -> is_finite y = true -> is_finite z = true ->
@@ -41,4 +75,4 @@ Theorem C03_row_float32_close_partial : forall (K : Z) (a b c x y z : f32),
   Rabs (B2R (dot3_32 a b c x y z) - (P1 + P2 + P3)) <= bound3 (u 24) (eta 24 128) P1 P2 P3.
 Proof. exact dot3_32_close. Qed.
 End RowCloseness.
-Print Assumptions C03_row_float32_close_partial.
+Print Assumptions C03_row_float32_close.
